@@ -74,15 +74,133 @@ func dedup(g []uint64) []uint64 {
 	return out
 }
 
+// KeyLevels selects the levels the Galois keys are generated at (rlwe.EvaluationKeyParameters). The zero value means
+// the defaults (MaxLevelQ, MaxLevelP). LP = -1 generates keys without auxiliary modulus on a parameter set that has one.
+type KeyLevels struct {
+	Set bool `json:"set,omitempty"`
+	LQ  int  `json:"lq,omitempty"`
+	LP  int  `json:"lp,omitempty"`
+}
+
+func (k KeyLevels) class(maxQ, maxP int) string {
+	if !k.Set {
+		return "keylevels=default"
+	}
+	c := "keylevels="
+	switch {
+	case k.LP == -1 && maxP >= 0:
+		c += "noP"
+	case k.LP < maxP:
+		c += "P<max"
+	default:
+		c += "Pmax"
+	}
+	if k.LQ < maxQ {
+		c += ",Q<max"
+	}
+	return c
+}
+
+// usedP returns the auxiliary primes the keys actually use.
+func (k KeyLevels) usedP(ps []uint64) []uint64 {
+	if !k.Set {
+		return ps
+	}
+	return ps[:k.LP+1]
+}
+
 // keysFor generates Galois keys for exactly the given list of Galois elements (with the secret key sk).
-func keysFor(kgen *rlwe.KeyGenerator, sk *rlwe.SecretKey, galEls []uint64, bpw2 int) *recKeys {
-	var evkp []rlwe.EvaluationKeyParameters
+func keysFor(kgen *rlwe.KeyGenerator, sk *rlwe.SecretKey, galEls []uint64, bpw2 int, kl ...KeyLevels) *recKeys {
+	var e rlwe.EvaluationKeyParameters
+	use := false
 	if bpw2 != 0 {
 		b := bpw2
-		evkp = append(evkp, rlwe.EvaluationKeyParameters{BaseTwoDecomposition: &b})
+		e.BaseTwoDecomposition = &b
+		use = true
+	}
+	if len(kl) > 0 && kl[0].Set {
+		lq, lp := kl[0].LQ, kl[0].LP
+		e.LevelQ, e.LevelP = &lq, &lp
+		use = true
+	}
+	var evkp []rlwe.EvaluationKeyParameters
+	if use {
+		evkp = append(evkp, e)
 	}
 	gks := kgen.GenGaloisKeysNew(dedup(galEls), sk, evkp...)
 	return newRecKeys(rlwe.NewMemEvaluationKeySet(nil, gks...))
+}
+
+// snapshot serialises the secret key and every Galois key: operations must leave their key material untouched.
+func snapshot(sk *rlwe.SecretKey, keys *recKeys) map[string]string {
+	out := map[string]string{}
+	if b, err := sk.MarshalBinary(); err == nil {
+		out["sk"] = string(b)
+	}
+	for _, g := range keys.inner.GetGaloisKeysList() {
+		if k, err := keys.inner.GetGaloisKey(g); err == nil {
+			if b, err := k.MarshalBinary(); err == nil {
+				out[fmt.Sprintf("gk%d", g)] = string(b)
+			}
+		}
+	}
+	return out
+}
+
+// sameSnapshot returns the name of the first object that changed ("" if none).
+func sameSnapshot(a, b map[string]string) string {
+	if len(a) != len(b) {
+		return "key-count"
+	}
+	names := make([]string, 0, len(a))
+	for k := range a {
+		names = append(names, k)
+	}
+	sort.Strings(names)
+	for _, k := range names {
+		if a[k] != b[k] {
+			return k
+		}
+	}
+	return ""
+}
+
+// genSetKeys draws the key levels once the ciphertext level is known. A set drawn without auxiliary prime (keys with a
+// power-of-two basis) may receive one afterwards: the parameters then have P while the keys stay at LevelP = -1.
+func genSetKeys(t *rapid.T, spec *h.RLWESpec, level int, fullP bool) KeyLevels {
+	maxQ := len(spec.Q) - 1
+	if fullP {
+		// operations that decompose for the parameters' whole auxiliary modulus (PartialTracesSum and what is built on it,
+		// ckks RotateHoisted) take keys at MaxLevelP only; their LevelQ is free
+		if rapid.IntRange(0, 2).Draw(t, "keyLevels") != 0 {
+			return KeyLevels{}
+		}
+		return KeyLevels{Set: true, LQ: rapid.IntRange(level, maxQ).Draw(t, "keyLQ"), LP: len(spec.P) - 1}
+	}
+	if len(spec.P) == 0 {
+		if rapid.IntRange(0, 2).Draw(t, "addP") != 0 {
+			return KeyLevels{}
+		}
+		used := map[uint64]bool{}
+		for _, q := range spec.Q {
+			used[q] = true
+		}
+		spec.P = h.GenPrimes(t, []int{61}, spec.NthRoot(), used, "pExtra")
+		return KeyLevels{Set: true, LQ: rapid.IntRange(level, maxQ).Draw(t, "keyLQ"), LP: -1}
+	}
+	return genKeyLevels(t, level, maxQ, 0, len(spec.P)-1)
+}
+
+// genKeyLevels draws the key levels for a parameter set whose moduli were sized for keys with `nPKeys` auxiliary primes:
+// default, or explicit LevelQ in [ctLevel, maxQ] and LevelP in [minLP, maxP].
+func genKeyLevels(t *rapid.T, ctLevel, maxQ, minLP, maxP int) KeyLevels {
+	if rapid.IntRange(0, 2).Draw(t, "keyLevels") != 0 {
+		return KeyLevels{}
+	}
+	k := KeyLevels{Set: true}
+	k.LQ = rapid.IntRange(ctLevel, maxQ).Draw(t, "keyLQ")
+	k.LP = rapid.IntRange(minLP, maxP).Draw(t, "keyLP")
+	return k
 }
 
 // rotation amounts --------------------------------------------------------------------------------------------------
